@@ -311,8 +311,8 @@ def random_histories(rec, hb, rng, classes, n_hist, pvl):
 
 
 def repo_tests_under_invariant(rec):
-    """Third workload: the repository's own collection tests with the
-    invariant attached (record mode) by a harness-side pytest plugin."""
+    """Third workload: the repository's whole test-suite with the invariant
+    attached (record mode) by a harness-side pytest plugin."""
     out = os.path.join(common.WORK, f"c10-pytest-{os.getpid()}.json")
     os.makedirs(common.WORK, exist_ok=True)
     env = dict(os.environ)
@@ -321,9 +321,7 @@ def repo_tests_under_invariant(rec):
     env["PYTHONPATH"] = os.pathsep.join([common.REPO, common.VERIF, common.DEPS])
     cmd = [common.PY, "-m", "pytest", "-q", "-p", "no:cacheprovider",
            "-p", "vlib.pytest_contracts", "--timeout=600",
-           os.path.join(common.REPO, "tests", "test_collections.py"),
-           os.path.join(common.REPO, "tests", "test_parser.py"),
-           os.path.join(common.REPO, "tests", "test_encoder.py")]
+           os.path.join(common.REPO, "tests")]
     try:
         r = subprocess.run(cmd, cwd=common.REPO, env=env, capture_output=True,
                            text=True, timeout=900)
